@@ -290,10 +290,36 @@ def eval_cases(pid, header, terms, chunk=300, timeout=600, tag="ev", ty=None):
     return toks, sum(r.wall for r in res.values())
 
 
-def scan_forbidden():
-    """grep the development for Admitted / Axiom / ... (comments stripped)."""
+def dep_closure(targets):
+    """.v files (relative to coq/) that the given .vo targets transitively depend on, from the
+    dependency file written by coq_makefile."""
+    dep = {}
+    f = COQ / ".Makefile.d"
+    if not f.exists():
+        return None
+    for line in f.read_text().replace("\\\n", " ").split("\n"):
+        if ":" not in line:
+            continue
+        lhs, rhs = line.split(":", 1)
+        vos = [t for t in lhs.split() if t.endswith(".vo")]
+        ds = [t for t in rhs.split() if t.endswith(".vo") and not t.startswith("/")]
+        for v in vos:
+            dep[v] = ds
+    seen, todo = set(), list(targets)
+    while todo:
+        t = todo.pop()
+        if t in seen:
+            continue
+        seen.add(t)
+        todo += dep.get(t, [])
+    return sorted(t[:-1] for t in seen)
+
+
+def scan_forbidden(files=None):
+    """grep the development (or the given files) for Admitted / Axiom / ... (comments stripped)."""
     hits = []
-    for p in sorted(COQ.rglob("*.v")):
+    paths = sorted(COQ.rglob("*.v")) if files is None else [COQ / f for f in files if (COQ / f).exists()]
+    for p in paths:
         text = p.read_text()
         text = strip_coq_comments(text)
         for i, line in enumerate(text.split("\n"), 1):
@@ -492,14 +518,12 @@ def run_check(mod, tier="quick", seed=0, replay=None):
     notes = []
 
     # ---- 1. proof obligations -------------------------------------------------------------
-    lenient = os.environ.get("VERIF_LENIENT_BUILD") == "1"   # development only, see README
-    if lenient:
-        tg = ["Properties/%s.vo" % pid] + list(getattr(mod, "COQ_DEPS", []))
-        ok_build, build_log = ensure_build(targets=tg)
-        forb = []
-    else:
-        ok_build, build_log = ensure_build()
-        forb = scan_forbidden()
+    # Only this property's files (Properties/Cxx.vo, the runner files in COQ_DEPS and everything
+    # they depend on) are rebuilt and scanned, so a broken file of another property cannot
+    # take this check down with it.  ./setup.sh builds everything.
+    tg = ["Properties/%s.vo" % pid] + list(getattr(mod, "COQ_DEPS", []))
+    ok_build, build_log = ensure_build(targets=tg)
+    forb = [] if os.environ.get("VERIF_LENIENT_BUILD") == "1" else scan_forbidden(dep_closure(tg))
     if ok_build:
         n_obl, n_dis, problems, axioms = check_property_file(pid, mod.THEOREMS)
     else:
